@@ -191,10 +191,23 @@ Proof. intros [] []; cbn; intros H; try reflexivity; discriminate H. Qed.
 
 Definition set_base (i : pinput) (b : string) : pinput :=
   mk_pinput (i_cmd i) (i_name i) b (i_file i) (i_exit i) (i_sleep i) (i_desc i) (i_deadline i)
-            (i_stdout_len i) (i_stdout i) (i_stderr_len i) (i_stderr i) (i_bound i).
+            (i_stdout_len i) (i_stdout i) (i_stderr_len i) (i_stderr i) (i_bound i)
+            (i_request_large i) (i_reads_stdin i) (i_child_holds_stdin i).
 
 Lemma frame_base : forall i b, model_p (set_base i b) = model_p i.
 Proof. intros [] b. reflexivity. Qed.
+
+(* the request side plays no part: size of the request, a plugin that does not
+   read it, a descendant that keeps the stdin pipe *)
+Definition set_stdin (i : pinput) (large reads holds : bool) : pinput :=
+  mk_pinput (i_cmd i) (i_name i) (i_base i) (i_file i) (i_exit i) (i_sleep i) (i_desc i) (i_deadline i)
+            (i_stdout_len i) (i_stdout i) (i_stderr_len i) (i_stderr i) (i_bound i) large reads holds.
+
+Lemma frame_stdin : forall i large reads holds,
+  model_p (set_stdin i large reads holds) = model_p i /\
+  wf_p (set_stdin i large reads holds) = wf_p i /\
+  forall o, spec_p (set_stdin i large reads holds) o = spec_p i o.
+Proof. intros [] large reads holds. repeat split. Qed.
 
 Lemma bin_name_injective : forall a b, bin_name a = bin_name b -> a = b.
 Proof. intros a b H. unfold bin_name in H. cbn in H. now inversion H. Qed.
@@ -213,7 +226,7 @@ Qed.
 Definition witness_meta : meta :=
   mk_meta "foo" "d" "1.0.0" "https://x" ["SIGNATURE_GENERATOR.RAW"] ["1.0"].
 Definition witness_name_vs_file : pinput :=
-  mk_pinput GetMetadata "foo" "notation-bar" FExec 0 0 None None 120 (SGood witness_meta) 0 ENotJson 9000.
+  mk_pinput GetMetadata "foo" "notation-bar" FExec 0 0 None None 120 (SGood witness_meta) 0 ENotJson 9000 false true false.
 
 (* without that convention it does not: NewCLIPlugin(ctx, "foo", ".../notation-bar") *)
 Lemma name_vs_file_refuted :
@@ -230,7 +243,7 @@ Lemma name_of_file_refused_refuted :
               /\ meta_complete m /\ p_result (model_p i) = RName.
 Proof.
   exists (mk_pinput GetMetadata "foo" "notation-bar" FExec 0 0 None None 120
-            (SGood (mk_meta "bar" "d" "1.0.0" "https://x" ["SIGNATURE_GENERATOR.RAW"] ["1.0"])) 0 ENotJson 9000).
+            (SGood (mk_meta "bar" "d" "1.0.0" "https://x" ["SIGNATURE_GENERATOR.RAW"] ["1.0"])) 0 ENotJson 9000 false true false).
   eexists. repeat split; try reflexivity; try discriminate.
   cbn. left. reflexivity.
 Qed.
